@@ -3423,6 +3423,8 @@ TARGETS = {
                          'column-rule-width', 'outline-width'],
             'isinstance': True, 'str_index': True,
             'imports': {'BORDER_WIDTH_KEYWORDS': ('weasyprint/css/computed_values.py', 'qtable')}}),
+        # tab_size, whole: an int (a number of spaces) kept, anything else through length()
+        ('fun', 'tab_size', 'tab_size', {'computer': ['tab-size'], 'isinstance': True}),
     ]),
     'GenBuild': ('weasyprint/formatting_structure/build.py', [
         # BOX_TYPE_FROM_DISPLAY: (outside, inside) / (table part,) -> the name of the class of boxes.py
